@@ -211,6 +211,19 @@ class SymRange:
         self.args = args
 
 
+class Inst:
+    """instance of a plain class of the analysed library (a private helper class): `__init__` was run on it, attributes live in `attrs`,
+    methods are looked up in the class scope and bound to it.  Instances are mutable objects of the interpreted program: `serial` orders
+    them by creation (stores into an object that is older than the loop being generalised are refused), `path` is the run that made it."""
+    __slots__ = ("cls", "attrs", "serial", "path")
+
+    def __init__(self, cls, serial, path):
+        self.cls, self.attrs, self.serial, self.path = cls, {}, serial, path
+
+    def __repr__(self):
+        return f"<instance of {self.cls.name}>"
+
+
 # ====================================================================================== mode vectors (eigenbasis)
 
 class MV:
@@ -346,6 +359,11 @@ class SymInterp(Interp):
         self.loop_stable = {}      # loop node id -> names that provably keep their entry value at the loop head
         self.assumed = []
         self.minmax_args = {}      # opaque max/min atom -> (which, [argument Rats])
+        self.inst_serial = 0       # creation counter of helper-class instances
+        self.inst_barrier = 0      # instances with a smaller serial were made before the loop whose head state is generalised
+        self.inst_writes = 0       # attribute stores so far (an effect-only statement that fails after a store is not skipped)
+        self.loop_stack = []       # (loop node id, instance barrier) of the loops being interpreted
+        self.tainted_loops = set() # loops in which the state of an older instance is changed: no path through them is trusted
 
     # ------------------------------------------------------------------ running
     def run_paths(self, closure, args, kwargs=None, refine=3):
@@ -372,6 +390,12 @@ class SymInterp(Interp):
                         new = True
             if not new:
                 break
+        # a loop in which some path changes an instance that is older than the loop: the instance state assumed at the loop head (its
+        # state on entry) is not an invariant, so every path through that loop (also the ones that leave it at once) is withdrawn
+        for p in out:
+            if p.kind != "error" and any(lk in self.tainted_loops for lk in p.loops):
+                p.kind, p.value, p.clash = "error", None, False
+                p.error = "EvalError: the loop changes the state of a helper-class instance created before it (loop-carried object state)"
         return out
 
     def _enumerate(self, closure, args, kwargs=None):
@@ -383,6 +407,8 @@ class SymInterp(Interp):
             p = Path()
             self.path, self.oracle = p, Oracle(prefix)
             self.depth = 0
+            self.inst_barrier = 0
+            self.loop_stack = []
             try:
                 v = self.call(closure, list(args), dict(kwargs or {}))
                 p.kind, p.value = "return", v
@@ -608,6 +634,15 @@ class SymInterp(Interp):
             raise EvalError("ordering of non-numeric values")
         if isinstance(a, Unknown) or isinstance(b, Unknown):
             raise EvalError("comparison with an unknown value")
+        if isinstance(a, ShapeOf):
+            a = self.shape_tuple(a)
+        if isinstance(b, ShapeOf):
+            b = self.shape_tuple(b)
+        if isinstance(a, (tuple, list)) and isinstance(b, (tuple, list)) and type(a) is type(b) and isinstance(op, (ast.Eq, ast.NotEq)) and \
+                all(is_num(x) for x in a) and all(is_num(x) for x in b):
+            # sequences of numbers are equal iff they have the same length and equal items
+            eq = len(a) == len(b) and all(self.decide_sign(rat(x) - rat(y), ast.Eq()) for x, y in zip(a, b))
+            return eq if isinstance(op, ast.Eq) else not eq
         if not (is_num(a) and is_num(b)):
             raise EvalError(f"comparison of {a!r} and {b!r}")
         return self.decide_sign(rat(a) - rat(b), op)
@@ -618,6 +653,10 @@ class SymInterp(Interp):
             if c is not None:
                 return c != 0
             return self.decide_sign(v.a, ast.NotEq())
+        if isinstance(v, Inst):
+            if self.class_function(v.cls, "__bool__") is not None or self.class_function(v.cls, "__len__") is not None:
+                raise EvalError(f"truth value of {v!r} with a user-defined __bool__ / __len__")
+            return True
         if isinstance(v, (SymObj, LinOp, Closure, PyFunc, Record, FV)):
             if isinstance(v, FV):
                 raise EvalError("truth value of a vector")
@@ -625,6 +664,117 @@ class SymInterp(Interp):
         if isinstance(v, Unknown):
             raise EvalError("truth value of an unknown")
         return super().truth(v)
+
+    # ------------------------------------------------------------------ instances of plain helper classes
+    DIM = "dim[space]"
+
+    def dim(self):
+        """the dimension n >= 1 of the space (the matrix is n x n, space vectors and mode vectors have n entries: what the property quantifies over)"""
+        self.positive.add(self.DIM)
+        self.nonneg.add(self.DIM)
+        return Dual(atom(self.DIM))
+
+    def shape_tuple(self, v):
+        """np.shape(v) / v.shape as a tuple of dimensions, or None"""
+        if isinstance(v, ShapeOf):
+            return (self.dim(),)
+        if isinstance(v, MatSym):
+            return (self.dim(), self.dim())
+        if isinstance(v, (FV, MV)):
+            return (self.dim(),)
+        if is_num(v):
+            return ()
+        return None
+
+    @staticmethod
+    def _decorators(sc):
+        return {norm_src(d).split("(")[0].split(".")[-1] for d in sc.node.decorator_list}
+
+    def plain_class(self, csc):
+        """a class the interpreter can instantiate: no bases (or `object`), no metaclass, no decorator, not a record-like class with
+        annotated fields and a generated constructor"""
+        nd = csc.node
+        if not isinstance(nd, ast.ClassDef) or nd.keywords or nd.decorator_list:
+            return False
+        if any(norm_src(b) != "object" for b in nd.bases):
+            return False
+        has_init = any(c.kind == "function" and c.name == "__init__" for c in csc.children)
+        fields = any(isinstance(st, ast.AnnAssign) for st in nd.body)
+        if fields and not has_init:
+            return False
+        for c in csc.children:
+            if c.kind == "function" and c.name in ("__new__", "__getattr__", "__getattribute__", "__setattr__", "__slots__", "__init_subclass__"):
+                return False
+        return True
+
+    def class_function(self, csc, name):
+        found = None
+        for c in csc.children:
+            if c.kind == "function" and c.name == name:
+                found = c               # the last definition wins, as in Python
+        return found
+
+    def instantiate(self, csc, args, kwargs):
+        self.inst_serial += 1
+        obj = Inst(csc, self.inst_serial, self.path)
+        init = self.class_function(csc, "__init__")
+        if init is None:
+            if args or kwargs:
+                raise EvalError(f"arguments for the class {csc.name} that has no __init__")
+            return obj
+        if self._decorators(init):
+            raise EvalError(f"decorated __init__ of {csc.name}")
+        r = self.call_closure(Closure(init, self.module_env(init.module)), [obj] + list(args), kwargs)
+        if r is not None:
+            raise EvalError(f"__init__ of {csc.name} returns a value")
+        return obj
+
+    def inst_attr(self, obj, a):
+        if a in obj.attrs:
+            return obj.attrs[a]
+        fn = self.class_function(obj.cls, a)
+        if fn is not None:
+            decos = self._decorators(fn)
+            cl = Closure(fn, self.module_env(fn.module))
+            if not decos:
+                return PyFunc(f"{obj.cls.name}.{a}", lambda it, args, kw, cl=cl, obj=obj: it.call_closure(cl, [obj] + list(args), kw))
+            if decos == {"property"}:
+                return self.call_closure(cl, [obj], {})
+            if decos == {"staticmethod"}:
+                return cl
+            raise EvalError(f"method {a} of {obj.cls.name} with decorators {sorted(decos)}")
+        # class attribute: a plain assignment in the class body
+        val = None
+        for st in obj.cls.node.body:
+            if isinstance(st, ast.Assign) and any(isinstance(t, ast.Name) and t.id == a for t in st.targets):
+                val = st.value
+            elif isinstance(st, ast.AnnAssign) and isinstance(st.target, ast.Name) and st.target.id == a and st.value is not None:
+                val = st.value
+        if val is not None:
+            return self.eval(val, self.module_env(obj.cls.module))
+        raise EvalError(f"attribute {a} of {obj!r}")
+
+    def inst_store(self, obj, a, v):
+        if obj.path is not self.path:
+            raise EvalError(f"store into {obj!r} that is shared between runs")
+        if obj.serial <= self.inst_barrier:
+            for lk_, b_ in self.loop_stack:
+                if obj.serial <= b_:
+                    self.tainted_loops.add(lk_)
+            raise EvalError(f"store into {obj!r} inside a loop that it was created before (loop-carried object state)")
+        fn = self.class_function(obj.cls, a)
+        if fn is not None and self._decorators(fn):
+            raise EvalError(f"store into the property / decorated method {a} of {obj!r}")
+        self.inst_writes += 1
+        obj.attrs[a] = v
+
+    def assign(self, t, v, env):
+        if isinstance(t, ast.Attribute):
+            base = self.eval(t.value, env)
+            if isinstance(base, Inst):
+                return self.inst_store(base, t.attr, v)
+            raise EvalError(f"store into an attribute of {base!r}")
+        return super().assign(t, v, env)
 
     # ------------------------------------------------------------------ expressions
     def num(self, v):
@@ -708,6 +858,8 @@ class SymInterp(Interp):
                 return v
         if isinstance(f, Unknown):
             raise EvalError(f"call of an unknown value ({f.why[:40]})")
+        if isinstance(f, Inst):
+            return self.call(self.inst_attr(f, "__call__"), args, kwargs)
         return super().call(f, args, kwargs)
 
     def call_closure(self, f, args, kwargs):
@@ -723,6 +875,12 @@ class SymInterp(Interp):
             if a in base.table:
                 return base.table[a]
             return Dual(atom(f"{base.name}.{a}"))
+        if isinstance(base, Inst):
+            return self.inst_attr(base, a)
+        if isinstance(base, MatSym) and a == "shape":
+            return self.shape_tuple(base)
+        if isinstance(base, MatSym) and a == "T":
+            return base                 # the matrix symbol is symmetric
         if isinstance(base, dict) and a in ("update", "copy", "values", "pop", "setdefault"):
             return ("method", base, a)
         if isinstance(base, list) and a in ("copy", "insert", "pop"):
@@ -772,6 +930,8 @@ class SymInterp(Interp):
             nm = f"{base.name}[:,{idx}]"
             self.ortho[nm] = ((base.name, kind), idx)
             return FV.sym(nm).scale(R(base.sign))
+        if isinstance(base, ShapeOf):
+            return self.getitem(self.shape_tuple(base), key)
         if isinstance(base, MV):
             if isinstance(key, int):
                 tree = base.tree
@@ -1019,6 +1179,24 @@ class SymInterp(Interp):
             return args[0]
         if name == "builtins.len" and len(args) == 1 and isinstance(args[0], Record):
             return len(args[0].values)
+        if name.startswith("class:"):
+            csc = self.repo.find(name[len("class:"):])
+            if csc is not None and csc.kind == "class" and self.plain_class(csc):
+                return self.instantiate(csc, args, kwargs)
+        if name == "builtins.len" and len(args) == 1 and isinstance(args[0], ShapeOf):
+            return len(self.shape_tuple(args[0]))
+        if name in ("builtins.getattr", "builtins.hasattr") and len(args) >= 2 and isinstance(args[0], Inst):
+            if not isinstance(args[1], str):
+                raise EvalError("attribute name that is not a constant string")
+            try:
+                v = self.inst_attr(args[0], args[1])
+            except EvalError:
+                if name.endswith("hasattr"):
+                    return False
+                if len(args) == 3:
+                    return args[2]
+                raise
+            return True if name.endswith("hasattr") else v
         if name == "builtins.getattr" and len(args) in (2, 3) and isinstance(args[1], str):
             base = args[0]
             if isinstance(base, SymObj):
@@ -1131,6 +1309,16 @@ class SymInterp(Interp):
             return a0
         if fn in ("zeros_like",) and isinstance(a0, FV):
             return FV()
+        if fn == "shape" and len(args) == 1 and not kwargs:
+            if isinstance(a0, FV):
+                return ShapeOf(a0)
+            st_ = self.shape_tuple(a0)
+            if st_ is not None:
+                return st_
+        if fn == "ndim" and len(args) == 1 and not kwargs:
+            st_ = self.shape_tuple(a0)
+            if st_ is not None:
+                return len(st_)
         if fn in ("ones_like",) and isinstance(a0, FV):
             raise EvalError("ones_like of a formal vector")
         if fn == "zeros" and isinstance(a0, ShapeOf):
@@ -1217,15 +1405,24 @@ class SymInterp(Interp):
                 # a method of a container the interpreter tracks (dict / list / record) must be understood: it may change the state
                 try:
                     recv = self.eval(st.value.func.value, env)
-                    strict = isinstance(recv, (dict, list, Record, FV, MV, Dual))
+                    strict = isinstance(recv, (dict, list, Record, FV, MV, Dual, Inst))
                 except EVAL_ERRORS:
                     strict = False
+            if not strict and isinstance(st.value, ast.Call):
+                # a helper-class instance handed to a call may be changed by the callee: the call must be understood
+                for a_ in list(st.value.args) + [k_.value for k_ in st.value.keywords]:
+                    a_ = a_.value if isinstance(a_, ast.Starred) else a_
+                    if isinstance(a_, ast.Name) and env.has(a_.id) and isinstance(env.lookup(a_.id), Inst):
+                        strict = True
             if strict:
                 self.eval(st.value, env)
                 return
+            writes0 = self.inst_writes
             try:
                 self.eval(st.value, env)
             except EVAL_ERRORS:
+                if self.inst_writes != writes0:
+                    raise               # the state of a tracked object was changed before the failure
                 # a statement evaluated for its effect only (print, callback, bookkeeping on objects the model does not track)
                 if self.path is not None:
                     self.path.events.append(("skipped-effect", norm_src(st)[:60]))
@@ -1234,6 +1431,13 @@ class SymInterp(Interp):
             cur = self.eval(ast.Name(id=st.target.id, ctx=ast.Load()), env)
             v = self.binop(cur, st.op, self.eval(st.value, env))
             env.vars[st.target.id] = v
+            return
+        if isinstance(st, ast.AugAssign) and isinstance(st.target, ast.Attribute):
+            base = self.eval(st.target.value, env)
+            if not isinstance(base, Inst):
+                raise EvalError(f"augmented store into an attribute of {base!r}")
+            v = self.binop(self.inst_attr(base, st.target.attr), st.op, self.eval(st.value, env))
+            self.inst_store(base, st.target.attr, v)
             return
         if isinstance(st, ast.AnnAssign) and st.value is not None:
             self.assign(st.target, self.eval(st.value, env), env)
@@ -1349,6 +1553,23 @@ class SymInterp(Interp):
                         a_ = a_.value
                     if isinstance(a_, ast.Name) and a_.id not in names and isinstance(env.vars.get(a_.id), (dict, list)):
                         names.append(a_.id)
+        # helper-class instances: their attributes are not generalised at the loop head, so (a) a store into an instance made before the
+        # loop is refused while the loop is interpreted (inst_store) and (b) an instance that holds a mutable container and is used in the
+        # loop is not followed (a method could change the container behind the interpreter's back)
+        for n_ in ast.walk(st):
+            if isinstance(n_, ast.Name) and env.has(n_.id) and isinstance(env.lookup(n_.id), Inst) and holds_container(env.lookup(n_.id)):
+                raise EvalError(f"loop uses {env.lookup(n_.id)!r} whose attributes hold mutable containers")
+        barrier0 = self.inst_barrier
+        self.inst_barrier = self.inst_serial
+        self.loop_stack.append((lk, self.inst_barrier))
+        try:
+            return self._sym_loop(st, env, rng, lk, ln, names)
+        finally:
+            self.inst_barrier = barrier0
+            self.loop_stack.pop()
+
+    def _sym_loop(self, st, env, rng, lk, ln, names):
+        p = self.path
         entry = {k: snap_copy(v) for k, v in env.vars.items()}
         head = {}
         stable = self.loop_stable.get(lk, ())
@@ -1389,6 +1610,27 @@ class _PosSet:
 
     def __contains__(self, a):
         return a in self.extra or self.i.known_nonneg(a)
+
+
+def holds_container(obj, seen=None):
+    """does an attribute of the instance (or of an instance it refers to) hold a dict / list?"""
+    seen = seen if seen is not None else set()
+    if id(obj) in seen:
+        return False
+    seen.add(id(obj))
+    for v in obj.attrs.values():
+        todo = [v]
+        while todo:
+            x = todo.pop()
+            if isinstance(x, (dict, list)):
+                return True
+            if isinstance(x, tuple):
+                todo += list(x)
+            elif isinstance(x, Record):
+                todo += list(x.values)
+            elif isinstance(x, Inst) and holds_container(x, seen):
+                return True
+    return False
 
 
 def snap_copy(v):
